@@ -148,6 +148,7 @@ func cmdCheck(args []string) int {
 
 	cfg := sym.DefaultConfig()
 	cfg.Tier = tier
+	printedKnown := map[string]bool{}
 	var hevs []harnessEvidence
 	totalPaths, totalQueries, totalReplays := 0, 0, 0
 	var samples []interface{}
@@ -245,7 +246,10 @@ func cmdCheck(args []string) int {
 			case "reproduced":
 				he.Confirmed++
 				if kf := matchKnown(known, id, v); kf != nil {
-					fmt.Printf("KNOWN-FINDING: property=%s %s\n", id, kf.What)
+					if !printedKnown[kf.What] {
+						printedKnown[kf.What] = true
+						fmt.Printf("KNOWN-FINDING: property=%s %s\n", id, kf.What)
+					}
 					continue
 				}
 				nViol++
